@@ -26,16 +26,21 @@ Inductive cop :=
 | CDelSum
 | CCorrupt (b : bytes)
 | CBlock
-| CRun (all force : bool) (entry : list N) (fail : option N).
+| CRun (all force : bool) (entry : list N) (fail : option N)
+       (cancel : option (option N)).   (* the context handed to Execute: None = never cancelled; Some None = cancelled
+                                          (or its deadline passed) before the call; Some (Some p) = cancelled (or the
+                                          deadline passes) while package p is generated, if p is executed at all *)
 
 Inductive csum := CSMissing | CSFile (b : bytes) | CSBlocked.
 
 Record crun := mk_crun {
   o_executed : list N;                         (* packages the generator was instantiated for, in order *)
-  o_err : N;                                   (* 0 none | 1 injected generator failure | 2 saving gengo.sum failed | 3 other *)
+  o_err : N;                                   (* 0 none | 1 injected generator failure | 2 saving gengo.sum failed | 3 other
+                                                  | 4 the context's own error (context.Canceled / DeadlineExceeded) *)
   o_hashes : list (option bytes);              (* per package index: directory hash when the run started; None = not hashable *)
   o_loaded : option (list (bytes * bytes));    (* sumfile.Load before the run, sorted by key; None = error *)
-  o_reloaded : option (list (bytes * bytes))   (* sumfile.Load after the run *)
+  o_reloaded : option (list (bytes * bytes));  (* sumfile.Load after the run *)
+  o_ctxdone : bool                             (* ctx.Err() <> nil when Execute returned *)
 }.
 
 Record cobs := mk_cobs { o_tree : ctree; o_sum : csum; o_run : option crun }.
@@ -169,10 +174,13 @@ Section World.
     | CDelSum => (step ctree ccontent cH cdirc cgen clocals fixed_all DeleteSum st, None)
     | CCorrupt b => (step ctree ccontent cH cdirc cgen clocals fixed_all (CorruptSum b) st, None)
     | CBlock => (step ctree ccontent cH cdirc cgen clocals fixed_all BlockSum st, None)
-    | CRun all force entry fail =>
+    | CRun all force entry fail cancel =>
         let a := {| r_all := all; r_force := force; r_entry := map path_of entry;
                     r_fail := option_map path_of fail |} in
-        let '(st', (evs, e)) := run ctree ccontent cH cdirc cgen clocals fixed_all a st in
+        let c := match cancel with
+                 | None => CtxLive | Some None => CtxDoneAtCall | Some (Some p) => CtxDoneIn (path_of p)
+                 end in
+        let '(st', (evs, e)) := run_ctx ctree ccontent cH cdirc cgen clocals fixed_all c a st in
         (st', Some (map idx_of (executed evs), err_code e))
     end.
 
@@ -231,7 +239,7 @@ Fixpoint G_entries (before : ctree) (steps : list (cop * cobs)) : list ((N * fil
   | [] => []
   | (o, ob) :: rest =>
       match o, o_run ob with
-      | CRun _ _ _ fail, Some r =>
+      | CRun _ _ _ fail _, Some r =>
           flat_map (fun p =>
                       if match fail with Some f => (f =? p)%N | None => false end then []
                       else [((p, f_del (t_files before p) 0), f_get (t_files (o_tree ob) p) 0)])
@@ -263,6 +271,9 @@ Fixpoint kv_get (m : list (bytes * bytes)) (k : bytes) : option bytes :=
 
 Definition opt_N_eqb (o : option N) (p : N) : bool := match o with Some q => (q =? p)%N | None => false end.
 
+Fixpoint last_opt (l : list N) : option N :=
+  match l with [] => None | [x] => Some x | _ :: r => last_opt r end.
+
 Fixpoint upto (f : N) (l : list N) : list N :=
   match l with [] => [] | x :: r => if (x =? f)%N then [x] else x :: upto f r end.
 
@@ -277,7 +288,7 @@ Section Holds.
 
   Definition same_run (a b : cop) : bool :=
     match a, b with
-    | CRun true false e1 None, CRun true false e2 None => list_eqb N.eqb e1 e2
+    | CRun true false e1 None None, CRun true false e2 None None => list_eqb N.eqb e1 e2
     | _, _ => false
     end.
 
@@ -286,7 +297,11 @@ Section Holds.
     let loc := local_idx pkgs entry in
     let scope := sorted_by_path (map fst (filter (fun pd => all || snd pd) loc)) in
     let failed_here := match fail with Some f => memN f (o_executed r) | None => false end in
-    let reached := match fail with Some f => if failed_here then upto f scope else scope | None => scope end in
+    (* a run that ends with the context's error gave up somewhere: it got at least as far as the last package
+       it executed (the property does not say how far a run has to go once its caller has given up) *)
+    let ctx_err := (o_err r =? 4)%N in
+    let reached := if ctx_err then match last_opt (o_executed r) with Some l => upto l scope | None => [] end
+                   else match fail with Some f => if failed_here then upto f scope else scope | None => scope end in
     let hash p := nth (N.to_nat p) (o_hashes r) None in
     let recorded p := match o_loaded r with Some m => kv_get m (path_of pkgs p) | None => None end in
     let must_regen p :=
@@ -304,7 +319,9 @@ Section Holds.
     list_eqb N.eqb (o_executed r) (filter (fun p => memN p (o_executed r)) reached)
     (* an executed failing package fails the run, and nothing else does *)
     && Bool.eqb failed_here (o_err r =? 1)%N
-    && ((o_err r =? 0)%N || (o_err r =? 1)%N || ((o_err r =? 2)%N && match sum_before with CSBlocked => true | _ => false end))
+    && ((o_err r =? 0)%N || (o_err r =? 1)%N || ((o_err r =? 2)%N && match sum_before with CSBlocked => true | _ => false end)
+        (* the context's error only when the context was in fact cancelled / expired *)
+        || (ctx_err && o_ctxdone r))
     (* skipped only if Force is off and the recorded hash equals the hash of the directory; Force, a missing or
        unreadable gengo.sum, a missing entry, a different hash make it regenerate *)
     && forallb (fun p => negb (must_regen p) || memN p (o_executed r)) reached
@@ -333,12 +350,12 @@ Section Holds.
     | [] => true
     | (o, ob) :: rest =>
         match o, o_run ob with
-        | CRun all force entry fail, Some r =>
+        | CRun all force entry fail _, Some r =>
             let streak' := match prev with Some q => if same_run q o then S streak else 0 | None => 0 end in
             let w' := if all && (o_err r =? 0)%N then Some before else w in
             holds_run all force entry fail before sum_before w streak' ob r
             && holds_steps (o_tree ob) (o_sum ob) w' (Some o) streak' rest
-        | CRun _ _ _ _, None => false
+        | CRun _ _ _ _ _, None => false
         | CSet _ _ _, _ | CDel _ _, _ => holds_steps (o_tree ob) (o_sum ob) w None 0 rest
         | _, _ => holds_steps (o_tree ob) (o_sum ob) None None 0 rest
         end
